@@ -455,7 +455,7 @@ func evalUpload(c UpCase) (vev.Outcome, error) {
 			}
 		}
 		switch c.Server {
-		case "readall":
+		case "readall", "precancelled":
 			io.Copy(io.Discard, r.Body)
 			answeredAt.Store(seq.Add(1))
 			w.WriteHeader(c.Code)
@@ -537,6 +537,12 @@ func evalUpload(c UpCase) (vev.Outcome, error) {
 	}
 	go func() {
 		var r res
+		if c.Server == "precancelled" {
+			// the caller's context is already done when the upload is opened (after C18-s15): nothing may ever reach the
+			// server, and Write and Close must still return
+			cancelledAt.CompareAndSwap(0, seq.Add(1))
+			cancel()
+		}
 		w, err := cl.Create(ctx, "/upload.bin")
 		if err != nil {
 			r.cerr = err
@@ -587,12 +593,12 @@ func evalUpload(c UpCase) (vev.Outcome, error) {
 	case !ok2xx && r.cerr == nil:
 		return dev(cls+"|close-nil-on-failure", "server behaviour %s/%d but Close returned nil (write error %v)", c.Server, c.Code, r.werr), nil
 	}
-	if c.Server != "stall" && c.Server != "drop" && c.Code/100 != 2 {
+	if c.Server != "stall" && c.Server != "drop" && c.Server != "precancelled" && c.Code/100 != 2 {
 		if code := errCode(r.cerr); code != c.Code {
 			return dev(cls+"|status-not-carried", "server answered %d, Close returned %v", c.Code, r.cerr), nil
 		}
 	}
-	if c.Server != "stall" {
+	if c.Server != "stall" && c.Server != "precancelled" {
 		if a := answeredAt.Load(); a == 0 || a > r.closedAt {
 			return dev(cls+"|close-before-answer", "Close returned (seq %d) before the server produced its answer (seq %d)", r.closedAt, a), nil
 		}
@@ -610,7 +616,7 @@ func evalUpload(c UpCase) (vev.Outcome, error) {
 	}
 	// nor does the library keep the connection busy: once the client's idle connections are closed, no transport
 	// goroutine of this upload remains (only asserted where the server produced an answer)
-	if c.Server != "stall" && c.Server != "drop" {
+	if c.Server != "stall" && c.Server != "drop" && c.Server != "precancelled" {
 		tr.CloseIdleConnections()
 		remain := 0
 		for i := 0; i < 250; i++ {
@@ -730,14 +736,17 @@ func evalCardDAV(c ConcCase) (vev.Outcome, error) {
 }
 
 type Case struct {
-	Conc *ConcCase `json:"conc,omitempty"`
-	Up   *UpCase   `json:"up,omitempty"`
+	Conc *ConcCase     `json:"conc,omitempty"`
+	Up   *UpCase       `json:"up,omitempty"`
+	Prog *ProgressCase `json:"progress,omitempty"`
 }
 
 func evaluate(c Case) (vev.Outcome, error) {
 	switch {
 	case c.Up != nil:
 		return evalUpload(*c.Up)
+	case c.Prog != nil:
+		return evalProgress(*c.Prog)
 	case c.Conc != nil && c.Conc.Kind == "caldav":
 		return evalCalDAV(*c.Conc)
 	case c.Conc != nil && c.Conc.Kind == "carddav":
@@ -845,6 +854,7 @@ func TestUploads(t *testing.T) {
 				}
 			}
 			cases = append(cases, UpCase{Server: "drop", K: 0, Size: size, Chunk: chunk}, UpCase{Server: "stall", K: 0, Size: size, Chunk: chunk, CancelAt: size / 2})
+			cases = append(cases, UpCase{Server: "precancelled", Code: 201, Size: size, Chunk: chunk})
 			if chunk == 0 {
 				cases = append(cases, UpCase{Server: "slow", Code: 201, Size: size}, UpCase{Server: "slow", Code: 403, Size: size})
 			}
@@ -857,8 +867,8 @@ func TestUploads(t *testing.T) {
 		if !vev.MyShare(i) {
 			continue
 		}
-		if !vev.Thorough() && (i+vev.SeedValue())%3 != 0 {
-			continue // quick tier: a third of the matrix, rotated by the seed
+		if !vev.Thorough() && (i+vev.SeedValue())%3 != 0 && c.Server != "precancelled" {
+			continue // quick tier: a third of the matrix, rotated by the seed (the cheap pre-cancelled cases always)
 		}
 		c := c
 		fault := c.Server != "readall" || c.Code/100 != 2
@@ -869,10 +879,13 @@ func TestUploads(t *testing.T) {
 		}
 		if !o.OK() && !rec.Known(o.Sig) {
 			rec.Violation(t, o.Sig, "c18", Case{Up: &c}, "%s", o.Msg)
+			if strings.HasSuffix(o.Sig, "|hang") {
+				break // the blocked goroutines of a hung upload would be counted against every later case
+			}
 		}
 	}
 	if vev.Thorough() {
-		rec.ExhaustiveSub("upload matrix: 5 server behaviours x status {201,204,403,507} x size {0,1,4 KiB,64 KiB+1,1 MiB,8 MiB} x chunking {one write, 8191-byte writes, byte-wise for small bodies}")
+		rec.ExhaustiveSub("upload matrix: 6 server behaviours x status {201,204,403,507} x size {0,1,4 KiB,64 KiB+1,1 MiB,8 MiB} x chunking {one write, 8191-byte writes, byte-wise for small bodies}")
 	}
 }
 
